@@ -25,6 +25,7 @@ pub mod c03;
 pub mod c04;
 pub mod c05;
 pub mod c06;
+pub mod c07;
 pub mod cfg;
 pub mod fault;
 pub mod gen;
@@ -36,7 +37,7 @@ pub mod world;
 use scenario::MarketHistory;
 use simcore::{CheckSpec, Part};
 
-pub const PROPERTIES: &[&str] = &["C02", "C03", "C04", "C05", "C06"];
+pub const PROPERTIES: &[&str] = &["C02", "C03", "C04", "C05", "C06", "C07"];
 
 fn common_assumptions() -> Vec<String> {
     vec![
@@ -77,6 +78,10 @@ pub fn registry(property: &str) -> Option<CheckSpec> {
         "C06" => Some(spec("C06", "exploration", 600_000, 10_000_000, vec![
             "Round trips are forks at points of simulated histories; the fork first settles the fee state (distribute, borrowing, funding) like the store does before every deposit and withdrawal.".into(),
             "Per-token value uses the code's public pool_value under the valuation the leg itself uses; the cross valuations are checked only without price spread and without a binding pnl cap.".into(),
+        ])),
+        "C07" => Some(spec("C07", "exploration", 400_000, 8_000_000, vec![
+            "Sums are taken over the harness' own position slots (2-8 per run, both sides x both collateral tokens); a removed position's slot is reset like a closed position account.".into(),
+            "Failed attempts are rolled back by the harness as the store rolls back a failed transaction; the invariant is evaluated after every step, failed or not.".into(),
         ])),
         _ => None,
     }
